@@ -37,7 +37,7 @@ import sys
 from concurrent.futures import ProcessPoolExecutor
 from pathlib import Path
 
-TOOL_VERSION = "racetable-3"
+TOOL_VERSION = "racetable-4"
 CLANG = os.environ.get("BFL_CLANG", "clang++-14")
 EIGEN_INC = "/usr/include/eigen3"
 
@@ -433,8 +433,9 @@ class Walker:
         return b is not None and b["kind"] == "CXXThisExpr"
 
     # ---- call edges
-    def add_call(self, key, kind):
-        c = {"callee": list(key), "kind": kind}
+    def add_call(self, key, kind, on_this=False):
+        c = {"callee": list(key), "kind": kind, "this": bool(on_this),
+             "locks": ["%s::%s" % m for m in self.locks_now()] if on_this else []}
         if c not in self.calls:
             self.calls.append(c)
 
@@ -459,14 +460,41 @@ class Walker:
             parent = self.stack[-1] if self.stack else None
             if parent is not None and parent["kind"] == "CXXMemberCallExpr" and inner(parent)[0] is m:
                 # a call `x.C::f()` with explicit qualification is not dispatched virtually
-                self.add_call(key, "direct" if self.explicitly_qualified(m) else "member")
+                self.add_call(key, "direct" if self.explicitly_qualified(m) else "member", self.base_is_this(m))
             else:
                 self.add_call(key, "spawn" if self.in_thread_ctor else "ref")
             return
         f = self.tu.fields.get(rid)
         if f is None:
             return
-        self.row(f, self.classify(m, f), self.base_is_this(m), m)
+        acc = self.classify(m, f)
+        self.row(f, acc, self.base_is_this(m), m)
+        via = self.via_callee(m, f)
+        if via is not None:
+            self.rows[-1]["via"] = list(via)
+
+    def via_callee(self, m, f):
+        """the member object (of a class type) is only used as the object of a call of a function of the
+        library: the callee's own rows account for what is touched, not this use"""
+        if f[2] in ("atomic", "mutex", "condvar", "plain"):
+            return None
+        chain = list(reversed(self.stack))
+        cur, i = m, 0
+        while i < len(chain) and (chain[i]["kind"] == "ParenExpr" or (chain[i]["kind"] == "ImplicitCastExpr"
+                                  and chain[i].get("castKind") in ("NoOp", "DerivedToBase", "UncheckedDerivedToBase"))):
+            cur = chain[i]
+            i += 1
+        if i >= len(chain):
+            return None
+        p = chain[i]
+        if p["kind"] == "MemberExpr" and inner(p) and inner(p)[0] is cur:
+            return self.tu.funcs.get(p.get("referencedMemberDecl"))
+        if p["kind"] == "CXXOperatorCallExpr":
+            cs = inner(p)
+            if len(cs) > 1 and cs[1] is cur:
+                callee = self.strip(cs[0])
+                return self.tu.funcs.get(((callee or {}).get("referencedDecl") or {}).get("id"))
+        return None
 
     def explicitly_qualified(self, m):
         # clang marks `Base::f()` calls by a nested name specifier; the JSON dump does not print it,
@@ -601,8 +629,33 @@ def gather(repo, cache_dir=None, jobs=None):
             except Exception:
                 pass
     tus = translation_units(repo)
-    with ProcessPoolExecutor(max_workers=jobs or min(16, os.cpu_count() or 4)) as ex:
-        res = list(ex.map(extract, [(str(repo), str(t)) for t in tus]))
+    # per translation unit cache: key = tool + the unit's text + every header of the library
+    hh = hashlib.sha256(TOOL_VERSION.encode())
+    hh.update(Path(__file__).read_bytes())
+    for p in sorted((repo / "src/BayesFilters/include/BayesFilters").glob("*")):
+        hh.update(p.name.encode())
+        hh.update(p.read_bytes())
+    res, todo = [None] * len(tus), []
+    for i, t in enumerate(tus):
+        k = hashlib.sha256(hh.digest() + str(t).encode() + t.read_bytes()).hexdigest()[:24]
+        cf = Path(cache_dir) / ("tu-%s.json" % k) if cache_dir else None
+        if cf is not None and cf.exists():
+            try:
+                res[i] = json.loads(cf.read_text())
+                continue
+            except Exception:
+                pass
+        todo.append((i, cf))
+    if todo:
+        with ProcessPoolExecutor(max_workers=jobs or min(16, os.cpu_count() or 4)) as ex:
+            got = list(ex.map(extract, [(str(repo), str(tus[i])) for i, _ in todo]))
+        for (i, cf), r in zip(todo, got):
+            res[i] = r
+            if cf is not None and "error" not in r:
+                cf.parent.mkdir(parents=True, exist_ok=True)
+                tmp = cf.with_suffix(".tmp%d" % os.getpid())
+                tmp.write_text(json.dumps(r))
+                os.replace(tmp, cf)
     errs = [r for r in res if "error" in r]
     if errs:
         raise RuntimeError("clang failed on %s:\n%s" % (errs[0]["tu"], errs[0]["error"]))
@@ -678,7 +731,7 @@ def merge(res):
             methods[k] = {"cls": k[0], "name": k[1], "sig": k[2], "virtual": False, "pure": False, "kind": "FunctionDecl", "body": True}
 
     # call edges, virtual calls expanded over the hierarchy
-    calls = []
+    calls, sites = [], []
     for k, b in bodies.items():
         for c in b["calls"]:
             callee = tuple(c["callee"])
@@ -709,6 +762,7 @@ def merge(res):
                 e = (k, t, kd)
                 if e not in calls:
                     calls.append(e)
+                sites.append((k, t, kd, bool(c.get("this")), tuple(c.get("locks", []))))
 
     fields = []
     for c in sorted(classes):
@@ -739,13 +793,18 @@ def merge(res):
         for r in bodies.get(k, {}).get("rows", []):
             if (r["cls"], r["field"]) not in fid:
                 continue
+            if r.get("via") and tuple(r["via"]) in bodies:
+                continue      # object of a call into the library: the callee's rows say what is touched
             accesses.append({"meth": mid[k], "field": fid[(r["cls"], r["field"])], "acc": r["acc"], "self": r["self"],
                              "locks": sorted(fid[tuple(l.split("::", 1))] for l in r["locks"] if tuple(l.split("::", 1)) in fid),
                              "file": r["file"], "line": r["line"], "col": r["col"]})
     accesses.sort(key=lambda a: (a["meth"], a["file"], a["line"], a["col"], a["field"], a["acc"]))
     clist = sorted({(mid[a], mid[b], kd) for a, b, kd in calls})
+    slist = sorted({(mid[a], mid[b], kd, th, tuple(sorted(fid[tuple(l.split("::", 1))] for l in lk if tuple(l.split("::", 1)) in fid)))
+                    for a, b, kd, th, lk in sites})
     return {"fields": fields, "methods": mlist, "accesses": accesses,
             "calls": [{"caller": a, "callee": b, "kind": kd} for a, b, kd in clist],
+            "call_sites": [{"caller": a, "callee": b, "kind": kd, "this": th, "locks": list(lk)} for a, b, kd, th, lk in slist],
             "classes": {c: {"bases": classes[c]["bases"], "ancestors": anc[c]} for c in sorted(classes)}}
 
 
@@ -761,6 +820,53 @@ def role_roots(model_path):
             raise RuntimeError("role map %s not found in %s" % (d, model_path))
         out[role] = re.findall(r'name%\s*"([^"]+)"', m.group(1))
     return out
+
+
+def apply_entry_locks(facts, roots):
+    """Interprocedural part of the lock recognition: a function that is only ever called, on `this`, from
+    places where a lock on mutex member m of `this` is in scope (or from functions with that property)
+    executes with m held.  Greatest fixed point of
+        entry(g) = ∩ over call sites f -> g of (entry(f) ∪ locks(site))   if the call is on `this`, else ∅
+    with entry = ∅ for the entry points of the role map, for functions nobody calls and for functions
+    whose address is taken.  The effective lockset of a row is its syntactic lockset ∪ entry(function)."""
+    M, A, S = facts["methods"], facts["accesses"], facts.get("call_sites", [])
+    names = set(n for ns in roots.values() for n in ns)
+    incoming = {}
+    for c in S:
+        incoming.setdefault(c["callee"], []).append(c)
+    TOP = None
+    entry = {}
+    for i, m in enumerate(M):
+        inc = incoming.get(i, [])
+        if m["name2"] in names or not inc or any(c["kind"] in ("ref", "spawn") or not c["this"] for c in inc):
+            entry[i] = frozenset()
+        else:
+            entry[i] = TOP
+    changed = True
+    while changed:
+        changed = False
+        for i in range(len(M)):
+            if entry[i] == frozenset():
+                continue
+            acc = TOP
+            for c in incoming.get(i, []):
+                e = entry[c["caller"]]
+                contrib = TOP if e is TOP else frozenset(e | set(c["locks"]))
+                if contrib is TOP:
+                    continue
+                acc = contrib if acc is TOP else (acc & contrib)
+            if acc is not TOP and acc != entry[i]:
+                entry[i] = acc
+                changed = True
+    for a in A:
+        a.setdefault("locks_syntactic", list(a["locks"]))
+        e = entry.get(a["meth"])
+        if a["self"] and e:
+            a["locks"] = sorted(set(a["locks_syntactic"]) | set(e))
+        else:
+            a["locks"] = list(a["locks_syntactic"])
+    facts["entry_locks"] = {M[i]["qual"]: sorted(e) for i, e in entry.items() if e}
+    return facts
 
 
 def discipline(facts, roots):
@@ -922,6 +1028,7 @@ def main():
     ap.add_argument("--model", default=str(here / "lean/BFL/Model/Race.lean"))
     a = ap.parse_args()
     facts = gather(a.repo, a.cache)
+    apply_entry_locks(facts, role_roots(a.model))
     disc = discipline(facts, role_roots(a.model))
     facts["discipline"] = disc
     txt = emit_lean(facts, disc)
